@@ -255,12 +255,23 @@ def isSelfDep (d : DSt) (c : Created) : Bool :=
   | some rr => rr.rule.src == .dependency && c.target == .host depParent
   | none => false
 
-/-- The model's answer as text; a Dependency of `zp` on itself is a cycle (C07), the load is rejected. -/
+def hasDup : List String → Bool
+  | [] => false
+  | x :: xs => xs.contains x || hasDup xs
+
+def objKey (s : String) : String := "/".intercalate ((s.splitOn "/").take 2)
+
+/-- two expected objects of the same type and name ("re-defined", configitem.cpp Register): outside the model -/
+def dupNames (exp : List ObjObs) : Bool := hasDup (exp.map fun o => srcName o.src ++ "/" ++ o.name)
+
+/-- The model's answer as text; a Dependency of `zp` on itself is a cycle (C07) and two created objects of the
+    same type and name are a re-definition: the load is rejected. -/
 def showLoad (d : DSt) : LoadResult → String
   | .rejected => "rejected"
   | .accepted l =>
     if l.any (isSelfDep d) then "rejected" else
     let ss := sortStrs (l.map (showCreated d))
+    if hasDup (ss.map objKey) then "rejected" else
     "ok:" ++ (if ss.isEmpty then "-" else ",".intercalate ss)
 
 def normObj (s : String) : String :=
@@ -359,7 +370,7 @@ def handleL (d : DSt) (n : Nat) (post : List String) : IO DSt := do
     if (kvOf post "p16").isSome && p16.isNone || (kvOf post "w16").isSome && w16.isNone then return (← bad d n)
     let obs : LoadObs := { plain1 := p1, wrap1 := w1, plain16 := p16, wrap16 := w16 }
     if (expectedObjs w rules inv).isNone then d := { d with specSilent := d.specSilent + 1 }
-    match specLoad w rules inv (selfDependency depParent) obs with
+    match specLoad w rules inv (fun exp => selfDependency depParent exp || dupNames exp) obs with
     | some cl =>
       IO.println s!"SPECFAIL line={n} case={d.caseNo} clause={cl.name}"
       d := { d with specfails := d.specfails + 1 }
